@@ -7,6 +7,7 @@
 #include <functional>
 #include <fstream>
 #include <chrono>
+#include <ctime>
 #include <csignal>
 #include <sys/mman.h>
 #include <sys/wait.h>
@@ -229,6 +230,7 @@ struct Args {
             else if(k == "--slice") a.slice = std::stoul(next());
             else if(k == "--nslices") a.nbSlices = std::stoul(next());
             else if(k == "--deadline") a.deadline = std::stod(next());
+            else if(k == "--deadline-epoch"){ const double e = std::stod(next()); a.deadline = std::max(1.0, e - double(std::time(nullptr))); }   // absolute end of the exploration phase
             else if(k == "--seed") a.seed = std::stol(next());
             else if(k == "--replay") a.replay = next();
         }
